@@ -295,18 +295,27 @@ def exec_history(graph, st, ops, want_flat=True):
     return outs, (f_obj(t, ref, graph) if want_flat else None), plain, t
 
 
-def walk(t, pre=()):
-    """pre-order (path, node) through .children only: no lru_cache'd method, no hashing, no __eq__"""
-    yield pre, t
-    for i, c in enumerate(t.children or ()):
-        yield from walk(c, pre + (i,))
+def walk(t, limit=10 ** 6):
+    """pre-order (path, node) list through .children only: no lru_cache'd method, no hashing, no __eq__;
+    iterative and bounded (a broken decoder can produce cyclic objects): None when more than `limit` nodes"""
+    out, stack = [], [((), t)]
+    while stack:
+        p, n = stack.pop()
+        out.append((p, n))
+        if len(out) > limit:
+            return None
+        ch = n.children or ()
+        for i in range(len(ch) - 1, -1, -1):
+            stack.append((p + (i,), ch[i]))
+    return out
 
 
 def same_tree(a, b):
     """decoded tree a against a pristine copy b of the original: node by node labels, ids (type int), open
     flags and arity; same string; find_node answers the same for every id (id 0 included); a == b"""
-    na, nb = list(walk(a)), list(walk(b))
-    if [p for p, _ in na] != [p for p, _ in nb]:
+    nb = walk(b)
+    na = walk(a, limit=len(nb))
+    if na is None or [p for p, _ in na] != [p for p, _ in nb]:
         return False
     for (_, x), (_, y) in zip(na, nb):
         if (x.value, x.id, x.children is None) != (y.value, y.id, y.children is None) or type(x.id) is not int:
